@@ -96,9 +96,10 @@ def run_container(ctx, case, data, tmp, container, spelling, max_read, rng):
     if container == "bytes":
         gen = auditok.split(data, **kw)
     elif container == "region_fn":
-        gen = auditok.split(AudioRegion(data, rate, width, channels), **kw)
+        # a region that came out of an earlier split() carries a start time: it is still just a container of audio
+        gen = auditok.split(AudioRegion(data, rate, width, channels, start=(2.5 if case["pcm_seed"] & 16 else None)), **kw)
     elif container == "region_method":
-        reg = AudioRegion(data, rate, width, channels)
+        reg = AudioRegion(data, rate, width, channels, start=(1.25 if case["pcm_seed"] & 32 else None))
         if max_read is not None:
             # the method refuses max_read; the documented way is to slice first
             n = sorted(round_cands(max_read, rate))[0]
@@ -256,11 +257,57 @@ def run_is_ok_without_max_read(ctx, case, data, tmp, container, spelling, rng, r
         return False
 
 
+def large_file_case(ctx, tmp, rng):
+    """one recording of more than 8 MiB: lazily and eagerly loaded raw/wav files against the bytes reference."""
+    rate, width, channels = 16000, 1, 1
+    block = 800
+    loud = bytes([60, 196]) * (block // 2)
+    quiet = bytes(block)
+    parts = []
+    total = 0
+    while total < 9 * 1024 * 1024:
+        k = rng.choice((3, 7, 20, 45))
+        g = rng.choice((2, 9, 30))
+        parts.append(loud * k + quiet * g)
+        total += (k + g) * block
+    data = b"".join(parts)[: 9 * 1024 * 1024 + 123 * 1]
+    kw = dict(min_dur=0.1, max_dur=2.0, max_silence=0.2, analysis_window=0.05, energy_threshold=30)
+    ref = sig(auditok.split(data, sr=rate, sw=width, ch=channels, **kw), rate)
+    p_raw = os.path.join(tmp, "big.raw")
+    with open(p_raw, "wb") as fp:
+        fp.write(data)
+    p_wav = os.path.join(tmp, "big.wav")
+    with wave.open(p_wav, "wb") as fp:
+        fp.setframerate(rate)
+        fp.setsampwidth(width)
+        fp.setnchannels(channels)
+        fp.writeframes(data)
+    for name, fn in (("raw_lazy", lambda: auditok.split(p_raw, large_file=True, sr=rate, sw=width, ch=channels, **kw)),
+                     ("raw_obj", lambda: auditok.split(RawAudioSource(p_raw, rate, width, channels), **kw)),
+                     ("wav_lazy", lambda: auditok.split(p_wav, large_file=True, **kw)),
+                     ("raw", lambda: auditok.split(p_raw, sr=rate, sw=width, ch=channels, **kw))):
+        ctx.count("large_file_comparisons")
+        ctx.case(("large", name, len(data)), bool(ref))
+        try:
+            got = sig(fn(), rate)
+        except Exception as exc:
+            ctx.violation(f"container-raises:{name}:{type(exc).__name__}", {"case": {"large_file": len(data)}, "exception": repr(exc)[:200]})
+            continue
+        if got != ref:
+            first = next((i for i, (a, b) in enumerate(zip(got, ref)) if a != b), min(len(got), len(ref)))
+            ctx.violation(f"container-result-differs:{name}:large-file", {"case": {"large_file": len(data)}, "regions": [len(got), len(ref)],
+                                                                         "first_difference_at_region": first, "start_sample_there": (ref[first][0] if first < len(ref) else None)})
+    os.unlink(p_raw)
+    os.unlink(p_wav)
+
+
 def run_shard(ctx):
     conf = TIERS[ctx.tier]
     rng = ctx.rng("audios")
     tmp = tempfile.mkdtemp(prefix="vf-c09-")
     try:
+        if ctx.shard == 0 or ctx.tier == "thorough" and ctx.shard < 4:
+            large_file_case(ctx, tmp, ctx.rng("large"))
         for i in range(conf["audios"]):
             case = AC.random_split_case(rng, max_windows=30, small_rate=(i % 4 != 0))
             run_audio(ctx, case, tmp, rng, ctx.tier == "thorough")
@@ -282,5 +329,5 @@ def replay(ctx, case):
 
 def inconclusive(merged, tier):
     c = merged["counters"]
-    need = ["comparisons", "comparisons_with_max_read"] + ["container_" + k for k in CONTAINERS] + ["spelling_" + s for s in SPELLINGS]
+    need = ["comparisons", "comparisons_with_max_read", "large_file_comparisons"] + ["container_" + k for k in CONTAINERS] + ["spelling_" + s for s in SPELLINGS]
     return [f"monitor never observed {k}" for k in need if c.get(k, 0) == 0]
